@@ -259,6 +259,31 @@ func closureTarget(v ssa.Value) *ssa.Function {
 		return x
 	case *ssa.ChangeType:
 		return closureTarget(x.X)
+	case *ssa.Call:
+		// a constructor of the module that returns one function literal on every path
+		g := staticCallee(&x.Call)
+		if g == nil || g.Blocks == nil || g.Pkg == nil || !strings.HasPrefix(g.Pkg.Pkg.Path(), modPath) || g.Signature.Results().Len() != 1 {
+			return nil
+		}
+		var f *ssa.Function
+		ok := true
+		eachInstr(g, func(i ssa.Instruction) {
+			if ret, isRet := i.(*ssa.Return); isRet {
+				mc, isMC := retValue(ret, 0).(*ssa.MakeClosure)
+				if !isMC {
+					ok = false
+					return
+				}
+				h, _ := mc.Fn.(*ssa.Function)
+				if h == nil || (f != nil && f != h) {
+					ok = false
+				}
+				f = h
+			}
+		})
+		if ok {
+			return f
+		}
 	}
 	return nil
 }
